@@ -287,6 +287,10 @@ impl<'a> Iterator for ProbeNumIter<'a> {
 /// Observation of a delivered item: (value, index derived from the address or -1).
 pub trait Obs: Sized {
     fn obs(self, base: usize, stride: usize, len: usize) -> (serde_json::Value, i64);
+    /// observes an item which the caller then drops like any other value (its destructor is a ledger event)
+    fn obs_dropped(self, base: usize, stride: usize, len: usize) -> serde_json::Value {
+        self.obs(base, stride, len).0
+    }
 }
 
 fn pidx(addr: usize, base: usize, stride: usize, len: usize) -> i64 {
@@ -303,6 +307,11 @@ impl Obs for Tok {
         std::mem::forget(self);
         (json!(id), -1)
     }
+    fn obs_dropped(self, _: usize, _: usize, _: usize) -> serde_json::Value {
+        let id = self.id;
+        drop(self);
+        json!(id)
+    }
 }
 impl Obs for HTok {
     fn obs(self, _: usize, _: usize, _: usize) -> (serde_json::Value, i64) {
@@ -310,6 +319,11 @@ impl Obs for HTok {
         let _q = Quiet::new(); // the caller disposes of what it received: not a ledger event
         drop(self);
         (json!(id), -1)
+    }
+    fn obs_dropped(self, _: usize, _: usize, _: usize) -> serde_json::Value {
+        let id = self.id;
+        drop(self);
+        json!(id)
     }
 }
 impl<'a> Obs for &'a Tok {
